@@ -5,7 +5,7 @@ from analysis import (Prov, Guards, fmt, fmt_short, walk, roots, short, comparis
                       find_calls, callee_matches, awaited_in_place, must_pass, path_to, describe_path,
                       normalised_cmp, const_int_of)
 from facts import AnchorError, strip_closure
-from harness import Rule
+from harness import Rule, guarded
 
 PID = "C13"
 EXPLANATION = (
@@ -628,4 +628,5 @@ def r4(ctx):
 
 
 def run(ctx):
-    return [r1(ctx), r2(ctx), r3(ctx), r4(ctx)]
+    G = lambda l, f, *a: guarded("C13." + l, f, ctx, *a)
+    return G("R1", r1) + G("R2", r2) + G("R3", r3) + G("R4", r4)
